@@ -128,6 +128,32 @@ void h_lockstep(void) {
   }
 }
 
+/* hextb load(): size arithmetic and copy extent (file operations are stubs).  With hexsim's load (C12: memory[k] = image word k
+   for k < header words present in the file) this gives the memory part of R at the start: both tools hold the same image words. */
+static size_t g_file_size; static uint32_t g_file_header; static size_t g_buf_elems, g_read_bytes, g_memcpy_bytes; static unsigned g_banner;
+#define FILE_OPEN() ((void)0)
+#define FILE_SIZE() ((long)g_file_size)
+static inline void FILE_READ_U32(unsigned *dst) { *dst = g_file_header; }
+#define FILE_READ_BUFFER(n) do { g_read_bytes = (n); } while (0)      /* istream::read into buffer.data(): at most n bytes, the rest of the zero-initialised vector stays 0 */
+#define TB_MEMCPY_TO_DUT(n) do { g_memcpy_bytes = (n); } while (0)    /* std::memcpy(memory_q.data(), buffer.data(), n) */
+#define TB_BANNER(n) do { g_banner = (n); } while (0)
+TB_LOAD_FN
+void h_tb_load(void) {
+  size_t present = nondet_size();                      /* bytes in the file after the 4-byte header */
+  uint32_t hdr = nondet_u32();
+  __CPROVER_assume(present <= 4u * (size_t)RTL_WORDS - 4 && hdr <= ISA_MEM_WORDS);
+  g_file_size = 4 + present; g_file_header = hdr; g_buf_elems = 0;
+  tb_load();
+  size_t rounded = (present + 3) & ~(size_t)3;
+  __CPROVER_assert(g_memcpy_bytes == rounded && g_read_bytes == rounded, "C06 load: hextb copies the whole remainder of the file, rounded up to a word, to address 0 of the RTL memory");
+  __CPROVER_assert(g_memcpy_bytes <= 4u * (size_t)RTL_WORDS, "C06 load: the copy stays inside the RTL memory");
+  __CPROVER_assert(g_buf_elems * sizeof(uint32_t) >= g_read_bytes && g_buf_elems * sizeof(uint32_t) >= g_memcpy_bytes, "C06 load: reads and copies stay inside the staging vector");
+  __CPROVER_assert(!(present >= 4 * (size_t)hdr) || g_memcpy_bytes >= 4 * (size_t)hdr, "C06 load: every image word announced by the header and present in the file is in RTL memory at its word address (as in hexsim)");
+#ifdef CANARY
+  __CPROVER_assert(0, "canary: harness end reachable");
+#endif
+}
+
 /* base case: hextb from every power-on state to the first R-point whose next rising edge releases reset */
 void h_base(void) {
   power_on();
@@ -177,7 +203,8 @@ def build_unit(chk):
     hs = simunit.HARNESS
     i = hs.index("static void havoc_state(void) {")
     j = hs.index("/* Hoare triple for one iteration")
-    text += "#ifdef HEX_CBMC\n_Bool nondet_bool(void);\n" + hs[i:j] + "#endif\n" + HARNESS
+    tbl = tbx.load_fn(m).replace("size_t buffer_size = remainingFileSize;", "size_t buffer_size = remainingFileSize; g_buf_elems = remainingFileSize;")
+    text += "#ifdef HEX_CBMC\n_Bool nondet_bool(void);\n" + hs[i:j] + "#endif\n" + HARNESS.replace("TB_LOAD_FN", tbl)
     # loop-carried locals of hextb's run() other than the known ones are arbitrary at an R-point (R does not mention them)
     hav = "".join("  %s = (%s)nondet_u64();\n" % (n, t) for t, n, v in prologue["extra_locals"])
     text = text.replace("  /* registers equal */\n", hav + "  /* registers equal */\n", 1)
@@ -230,7 +257,7 @@ def main(chk, replay_file):
                    "iostream stubs: the two HexSimIO instances see the same input oracle"]
     chk.assumptions = [
         "quantifier of the property: defined instructions (system calls 0..2), byte addresses below 800000 and word addresses below 200000, and every word a step READS has been loaded or written (then both memories agree on it): instantiated at the fetched word, the data word and the stack-pointer / argument words",
-        "hextb's load() copies the whole file (image + debug tables) into memory while hexsim loads only the image: irrelevant for programs that never read unwritten memory; equality of the two loaders on the image words is assumed (same file), not proved",
+        "hextb's load() copies the whole remainder of the file (image + debug tables) into RTL memory while hexsim loads only the image: irrelevant for programs that never read unwritten memory. load.contract proves hextb's size arithmetic and copy extent (every image word present in the file lands at its word address, copy inside the memory and the staging vector; file smaller than the RTL memory assumed); istream::read / memcpy themselves are stubs",
         "whole-run equality = induction over steps from the base case (paper glue); --max-cycles, VCD tracing, the load banner and the OS's 8-bit exit status are outside the contract",
         "a READ system call does not store into the word holding the SVC instruction itself (self-modifying stack/code overlap; excluded by 'well-defined program', cf. C08)",
         "reachable-state invariant (oreg & 0xF) == 0 assumed and re-established (as C03); stack pointer word of the image below MEM words - 3 in the base case",
@@ -245,6 +272,8 @@ def main(chk, replay_file):
         J("lockstep.step", unit, "h_lockstep", unwind=4, flags=ws, timeout=2400, stop_on_fail=True, mem_est=11,
           functions=["hexsim step", "hextb tail/head/tail/head", "handleSyscall"],
           note="all register values x memory contents x defined instructions x tick numbers (reset tail included)"),
+        J("load.contract", unit, "h_tb_load", functions=["hextb load() (size arithmetic, copy extent)"]),
+        J("load.canary", unit, "h_tb_load", defines=["CANARY"], kind="canary", checks=[]),
         J("lockstep.base", unit, "h_base", unwind=4, flags=wl, timeout=2400, stop_on_fail=True, mem_est=6, functions=["hextb prologue + reset window"], note="every power-on state"),
         J("lockstep.step.canary", unit, "h_lockstep", unwind=4, flags=ws, defines=["CANARY"], kind="canary", checks=[], timeout=2400, mem_est=11),
         J("lockstep.base.canary", unit, "h_base", unwind=4, flags=wl, defines=["CANARY"], kind="canary", checks=[], timeout=2400, mem_est=6),
